@@ -539,8 +539,9 @@ def _explore(farm, mod, tier, verif_seed, budget_s, n_cases, fingerprints_out, t
         if fingerprint(small, res3) != fp1:
             harness.append((c["seed"], f"NONDETERMINISM while confirming {sig}"))
             continue
-        os.makedirs(os.path.join(VERIF, "replays"), exist_ok=True)
-        rp = os.path.join(VERIF, "replays", f"{prop}-{c['seed']}-{prf(sig) % 100000:05d}.json")
+        rdir = os.environ.get("RSIM_REPLAY_DIR") or os.path.join(VERIF, "replays")
+        os.makedirs(rdir, exist_ok=True)
+        rp = os.path.join(rdir, f"{prop}-{c['seed']}-{prf(sig) % 100000:05d}.json")
         with open(rp, "w") as fp:
             json.dump({"property": prop, "signature": sig, "fingerprint": fp1, "detail": hit[0].get("detail", ""),
                        "shrink_executions": sh.execs, "original_seed": c["seed"], "case": small}, fp, indent=1)
